@@ -36,6 +36,7 @@ fn warm_up() {
     worlds::batched::warm_up();
     worlds::authz::warm_up();
     worlds::frontends::warm_up();
+    worlds::storagefaults::warm_up();
 }
 
 fn run_world<W: World>(world: W, tier: Tier) -> i32 {
@@ -143,6 +144,17 @@ fn worker_world<W: World>(world: W, args: &[String]) -> i32 {
     worker_main(&world, p(4), tier, p(5), p(6), p(7), &args[8], &args[9], &known)
 }
 
+/// execute one case read from a file, in this (child) process; used for crash isolation
+fn exec_case_world<W: World>(world: W, args: &[String]) -> i32 {
+    let world = Arc::new(world);
+    let known = Arc::new(load_known_findings(&verif_dir()));
+    let s = std::fs::read_to_string(&args[3]).unwrap_or_else(|e| harness_error(&format!("cannot read case file: {e}")));
+    let case: W::Case = serde_json::from_str(&s).unwrap_or_else(|e| harness_error(&format!("bad case file: {e}")));
+    let out = run_case(&world, &case, &known, false);
+    let _ = std::fs::write(&args[4], serde_json::to_string(&out.violation).unwrap_or_else(|_| "null".into()));
+    0
+}
+
 /// print per-run digests, for the cross-process determinism diff
 fn digest_world<W: World>(world: W, n: u64, workers: usize) -> i32 {
     let world = Arc::new(world);
@@ -164,7 +176,7 @@ fn digest_world<W: World>(world: W, n: u64, workers: usize) -> i32 {
             if i >= total {
                 break;
             }
-            let case = world.generate(case_seed(seed, world.name(), i), Tier::Quick);
+            let case = world.generate_indexed(i, case_seed(seed, world.name(), i), Tier::Quick);
             let out = run_case(&world, &case, &known, true);
             let mut log = out.obs.log;
             if let Some(v) = out.violation {
@@ -194,6 +206,7 @@ macro_rules! dispatch {
             "authz" | "C01" => $f(worlds::authz::Authz $(, $arg)*),
             "policyset" | "C08" => $f(worlds::policyset::PolicySetWorld $(, $arg)*),
             "frontends" | "C19" => $f(worlds::frontends::Frontends $(, $arg)*),
+            "storagefaults" | "C20" => $f(worlds::storagefaults::StorageFaults $(, $arg)*),
             "batched" | "C15" => $f(worlds::batched::Batched $(, $arg)*),
             other => harness_error(&format!("unknown world/property {other}")),
         }
@@ -248,12 +261,17 @@ fn main() {
             let name = args.get(2).map(|s| s.as_str()).unwrap_or("");
             dispatch!(name, worker_world, &args)
         }
+        "exec-case" => {
+            let name = args.get(2).map(|s| s.as_str()).unwrap_or("");
+            dispatch!(name, exec_case_world, &args)
+        }
         "worlds" => {
             println!("hierarchy");
             println!("batched");
             println!("authz");
             println!("policyset");
             println!("frontends");
+            println!("storagefaults");
             0
         }
         "digest" => {
